@@ -152,22 +152,101 @@ Section ReadFacts.
     intros H. inversion H; subst; rewrite !app_length; cbn [length]; lia.
   Qed.
 
+  (* ---- the same reference for codecs whose end-of-stream frames never end ----
+     `decodes decode_eof r its2 r2` exists only if decode_eof eventually says None.  A codec may go on
+     producing end-of-stream frames for ever (a trailer derived from its own state on an EMPTY buffer, the
+     provided `decode_eof` on a truncated frame): then every poll after the 0-byte read returns the next such
+     frame and the stream never ends.  `eoftr b tr`: tr is an initial part (any length) of what repeated
+     decode_eof calls on b yield — Item for a frame, Done where it says None (and stops there). *)
+  Inductive eoftr : list Z -> list (res A) -> Prop :=
+  | eo_cut b : eoftr b []
+  | eo_done b r : decode_eof b = (None, r) -> eoftr b [Done]
+  | eo_item b a r tr : decode_eof b = (Some a, r) -> eoftr r tr -> eoftr b (Item a :: tr).
+
+  Lemma decodes_eoftr b its2 r2 : decodes decode_eof b its2 r2 -> eoftr b (map Item its2 ++ [Done]).
+  Proof.
+    induction 1 as [b r E|b a r l r' E H IH]; cbn [map app].
+    - eapply eo_done; exact E.
+    - eapply eo_item; [exact E|exact IH].
+  Qed.
+
+  Lemma eoftr_complete b tr : eoftr b tr -> In Done tr ->
+    exists its2 r2, decodes decode_eof b its2 r2 /\ tr = map Item its2 ++ [Done].
+  Proof.
+    induction 1 as [b|b r E|b a r tr E H IH]; intros Hin.
+    - destruct Hin.
+    - exists [], r. split; [now constructor|reflexivity].
+    - destruct Hin as [Hin|Hin]; [discriminate Hin|].
+      destruct (IH Hin) as (its2 & r2 & Hd & ->).
+      exists (a :: its2), r2. split; [econstructor; eassumption|reflexivity].
+  Qed.
+
+  Lemma eoftr_frames b tr : eoftr b tr -> Forall (fun x => x = Done \/ exists a, x = Item a) tr.
+  Proof.
+    induction 1 as [b|b r E|b a r tr E H IH]; constructor; eauto.
+  Qed.
+
+  Inductive gref : list Z -> list rd -> list (res A) -> Prop :=
+  | gref_eof buf sc bytes its r tr2 :
+      seg sc = (bytes, TEof) -> decodes decode (buf ++ bytes) its r -> eoftr r tr2 ->
+      gref buf sc (map Item its ++ tr2)
+  | gref_err buf sc bytes t its r tr :
+      seg sc = (bytes, TErr t) -> decodes decode (buf ++ bytes) its r -> gref r t tr ->
+      gref buf sc (map Item its ++ IoError :: tr).
+
+  Lemma gref_seg buf sc1 sc2 tr : seg sc1 = seg sc2 -> gref buf sc1 tr -> gref buf sc2 tr.
+  Proof.
+    intros E H. inversion H as [b s bytes its r tr2 Hs Hd He|b s bytes t its r tr' Hs Hd Hr]; subst.
+    - eapply gref_eof; [rewrite <- E; exact Hs|exact Hd|exact He].
+    - eapply gref_err; [rewrite <- E; exact Hs|exact Hd|exact Hr].
+  Qed.
+
+  Lemma gref_chunk buf b bs sc tr :
+    gref (buf ++ b :: bs) sc tr -> gref buf (RChunk (b :: bs) :: sc) tr.
+  Proof.
+    intros H. inversion H as [b0 s bytes its r tr2 Hs Hd He|b0 s bytes t its r tr' Hs Hd Hr]; subst.
+    - eapply gref_eof with (bytes := (b :: bs) ++ bytes); [cbn [seg]; now rewrite Hs| |exact He].
+      now rewrite app_assoc.
+    - eapply gref_err with (bytes := (b :: bs) ++ bytes); [cbn [seg]; now rewrite Hs| |exact Hr].
+      now rewrite app_assoc.
+  Qed.
+
+  (* the complete reference sequences (those that reach Done) are exactly `ref` *)
+  Lemma ref_gref buf sc tr : ref buf sc tr -> gref buf sc tr.
+  Proof.
+    induction 1 as [buf sc bytes its r its2 r2 Hs Hd He|buf sc bytes t its r tr Hs Hd Hr IH].
+    - eapply gref_eof; [exact Hs|exact Hd|]. apply (decodes_eoftr _ _ _ He).
+    - eapply gref_err; eassumption.
+  Qed.
+
+  Lemma ref_done buf sc tr : ref buf sc tr -> In Done tr.
+  Proof.
+    induction 1 as [buf sc bytes its r its2 r2 Hs Hd He|buf sc bytes t its r tr Hs Hd Hr IH].
+    - rewrite !in_app_iff. right. right. now left.
+    - rewrite in_app_iff. right. now right.
+  Qed.
+
+  Lemma not_done_items (l : list A) : ~ In Done (map Item l).
+  Proof. induction l as [|a l IH]; cbn [map In]; [tauto|]. intros [H|H]; [discriminate H|tauto]. Qed.
+
+  Lemma gref_complete buf sc tr : gref buf sc tr -> In Done tr -> ref buf sc tr.
+  Proof.
+    induction 1 as [buf sc bytes its r tr2 Hs Hd He|buf sc bytes t its r tr Hs Hd Hr IH]; intros Hin.
+    - rewrite in_app_iff in Hin. destruct Hin as [Hin|Hin]; [destruct (not_done_items _ Hin)|].
+      destruct (eoftr_complete _ _ He Hin) as (its2 & r2 & Hd2 & ->).
+      eapply ref_eof; eassumption.
+    - rewrite in_app_iff in Hin. destruct Hin as [Hin|[Hin|Hin]];
+        [destruct (not_done_items _ Hin)|discriminate Hin|].
+      eapply ref_err; [exact Hs|exact Hd|exact (IH Hin)].
+  Qed.
+
   (* ---- state invariant and what is still to come ---- *)
   Definition flags_ok (st : rstate) : Prop := eof st = true -> readable st = true.
   Definition wf (st : rstate) : Prop :=
     flags_ok st /\ (readable st = false -> fst (decode (rbuf st)) = None).
 
   Definition expect (st : rstate) (sc : list rd) (tr : list (res A)) : Prop :=
-    if eof st
-    then exists its2 r2, decodes decode_eof (rbuf st) its2 r2 /\ tr = map Item its2 ++ [Done]
-    else ref (rbuf st) sc tr.
-
-  Lemma expect_nonempty st sc tr : expect st sc tr -> (1 <= length tr)%nat.
-  Proof.
-    unfold expect. destruct (eof st).
-    - intros (its2 & r2 & _ & ->). rewrite app_length. cbn [length]. lia.
-    - apply ref_nonempty.
-  Qed.
+    if eof st then eoftr (rbuf st) tr else gref (rbuf st) sc tr.
 
   Lemma wf_init : fst (decode []) = None -> wf rinit.
   Proof. intros H. split; [intros E; discriminate E|intros _; exact H]. Qed.
@@ -178,9 +257,9 @@ Section ReadFacts.
     wf st' /\ (length sc' <= length sc)%nat /\
     match r with
     | Pending => expect st' sc' tr /\ (length sc' < length sc)%nat
-    | Item a => exists tr', tr = Item a :: tr' /\ expect st' sc' tr'
-    | IoError => exists tr', tr = IoError :: tr' /\ expect st' sc' tr'
-    | Done => tr = [Done] /\ eof st' = true
+    | Item a => tr = [] \/ exists tr', tr = Item a :: tr' /\ expect st' sc' tr'
+    | IoError => tr = [] \/ exists tr', tr = IoError :: tr' /\ expect st' sc' tr'
+    | Done => (tr = [] \/ tr = [Done]) /\ eof st' = true
     | Panic => False
     end.
 
@@ -193,18 +272,18 @@ Section ReadFacts.
 
   (* the iteration with READABLE|EOF set *)
   Lemma at_eof_post sc n buf tr :
-    (exists its2 r2, decodes decode_eof buf its2 r2 /\ tr = map Item its2 ++ [Done]) ->
+    eoftr buf tr ->
     forall r st2, at_eof buf n = (r, st2) -> post sc tr (r, st2, sc).
   Proof.
-    intros (its2 & r2 & Hd & ->) r st2. unfold Framed.at_eof.
+    intros He r st2. unfold Framed.at_eof.
     destruct (decode_eof buf) as [[a|] rest] eqn:E; intros H; injection H as <- <-.
-    - destruct (decodes_inv_some _ _ _ _ _ _ E Hd) as (l & -> & Hl).
-      split; [split; [intros _; reflexivity|intros H; discriminate H]|]. split; [lia|].
-      exists (map Item l ++ [Done]). split; [reflexivity|].
-      unfold expect. cbn [eof rbuf]. eauto.
-    - destruct (decodes_inv_none _ _ _ _ _ E Hd) as [-> ->].
-      split; [split; [intros _; reflexivity|intros H; discriminate H]|]. split; [lia|].
-      split; reflexivity.
+    - split; [split; [intros _; reflexivity|intros H; discriminate H]|]. split; [lia|].
+      inversion He as [b|b r0 E0|b a0 r0 tr0 E0 H0]; subst; [left; reflexivity|congruence|].
+      rewrite E in E0. injection E0 as <- <-.
+      right. exists tr0. split; [reflexivity|]. unfold expect. cbn [eof rbuf]. exact H0.
+    - split; [split; [intros _; reflexivity|intros H; discriminate H]|]. split; [lia|].
+      split; [|reflexivity].
+      inversion He as [b|b r0 E0|b a0 r0 tr0 E0 H0]; subst; [left; reflexivity|right; reflexivity|congruence].
   Qed.
 
   Definition read_step (sc : list rd) (st1 : rstate) : res A * rstate * list rd :=
@@ -235,7 +314,7 @@ Section ReadFacts.
       match decode_phase st with
       | Ret r st' => post sc tr (r, st', sc)
       | Fall st1 => eof st1 = false /\ readable st1 = false /\ fst (decode (rbuf st1)) = None
-                    /\ ref (rbuf st1) sc tr
+                    /\ gref (rbuf st1) sc tr
       end.
     Proof.
       intros [Hf Hn] He. unfold Framed.decode_phase, expect in *.
@@ -245,16 +324,16 @@ Section ReadFacts.
           exact (at_eof_post sc _ _ tr He r st2 Ea).
         + destruct (decode (rbuf st)) as [[a|] rest] eqn:Ed.
           * (* a frame: it is the first frame of the reference too, by ps_some *)
-            split; [split; [intros H; discriminate H|intros H; discriminate H]|]. split; [lia|].
-            inversion He as [b s bytes its r its2 r2 Hs Hd Hde|b s bytes t its r tr' Hs Hd Hr]; subst.
+            split; [split; [intros H; discriminate H|intros H; discriminate H]|]. split; [lia|]. right.
+            inversion He as [b s bytes its r tr2 Hs Hd Hde|b s bytes t its r tr' Hs Hd Hr]; subst.
             -- pose proof (ps_some law _ _ _ bytes Ed) as Ed'.
                destruct (decodes_inv_some _ _ _ _ _ _ Ed' Hd) as (l & -> & Hl).
-               exists (map Item l ++ map Item its2 ++ [Done]). split; [reflexivity|].
-               cbn [eof rbuf]. eapply ref_eof; eassumption.
+               exists (map Item l ++ tr2). split; [reflexivity|].
+               cbn [eof rbuf]. eapply gref_eof; eassumption.
             -- pose proof (ps_some law _ _ _ bytes Ed) as Ed'.
                destruct (decodes_inv_some _ _ _ _ _ _ Ed' Hd) as (l & -> & Hl).
                exists (map Item l ++ IoError :: tr'). split; [reflexivity|].
-               cbn [eof rbuf]. eapply ref_err; eassumption.
+               cbn [eof rbuf]. eapply gref_err; eassumption.
           * pose proof (ps_none law _ _ Ed) as ->. cbn [eof readable rbuf].
             rewrite Ed. auto.
       - assert (Ee : eof st = false).
@@ -272,15 +351,15 @@ Section ReadFacts.
 
     (* reading a 0-byte answer with nothing decodable buffered *)
     Lemma eof_read_post sc sc' st1 tr :
-      fst (decode (rbuf st1)) = None -> ref (rbuf st1) sc tr -> seg sc = ([], TEof) ->
+      fst (decode (rbuf st1)) = None -> gref (rbuf st1) sc tr -> seg sc = ([], TEof) ->
       (length sc' <= length sc)%nat ->
       forall r st2, at_eof (rbuf st1) (ncalls st1) = (r, st2) -> post sc tr (r, st2, sc').
     Proof.
       intros Hn Hr Hs Hl r st2 Ea.
-      assert (He : exists its2 r2, decodes decode_eof (rbuf st1) its2 r2 /\ tr = map Item its2 ++ [Done]).
-      { inversion Hr as [b s bytes its r0 its2 r2 Hs' Hd Hde|b s bytes t its r0 tr' Hs' Hd Hr']; subst;
+      assert (He : eoftr (rbuf st1) tr).
+      { inversion Hr as [b s bytes its r0 tr2 Hs' Hd Hde|b s bytes t its r0 tr' Hs' Hd Hr']; subst;
           rewrite Hs in Hs'; [|discriminate]. injection Hs' as <-.
-        destruct (decodes_nothing _ _ _ Hn Hd) as [-> ->]. eauto. }
+        destruct (decodes_nothing _ _ _ Hn Hd) as [-> ->]. exact Hde. }
       pose proof (at_eof_post sc' (ncalls st1) (rbuf st1) tr He r st2 Ea) as (Hw & _ & H).
       split; [exact Hw|]. split; [exact Hl|]. destruct r; try exact H. destruct H; lia.
     Qed.
@@ -305,19 +384,19 @@ Section ReadFacts.
           apply post_weaken. apply IH.
           * split; [intros H; discriminate H|intros H; discriminate H].
           * unfold expect. cbn [eof rbuf].
-            inversion Hr as [b0 s bytes its r0 its2 r2 Hs Hd Hde|b0 s bytes t its r0 tr' Hs Hd Hr']; subst;
+            inversion Hr as [b0 s bytes its r0 tr2 Hs Hd Hde|b0 s bytes t its r0 tr' Hs Hd Hr']; subst;
               cbn [seg] in Hs; destruct (seg sc') as [bytes' tl] eqn:Es; injection Hs as Hb Ht;
               subst bytes tl.
-            -- eapply ref_eof; [exact Es| |exact Hde]. now rewrite <- app_assoc.
-            -- eapply ref_err; [exact Es| |exact Hr']. now rewrite <- app_assoc.
+            -- eapply gref_eof; [exact Es| |exact Hde]. now rewrite <- app_assoc.
+            -- eapply gref_err; [exact Es| |exact Hr']. now rewrite <- app_assoc.
         + (* Pending *)
           split; [exact Hw1|]. split; [cbn [length]; lia|]. split; [|cbn [length]; lia].
-          unfold expect. rewrite Ee. eapply ref_seg; [|exact Hr]. reflexivity.
+          unfold expect. rewrite Ee. eapply gref_seg; [|exact Hr]. reflexivity.
         + destruct (at_eof (rbuf st1) (ncalls st1)) as [r st2] eqn:Ea.
           eapply eof_read_post; eauto. cbn [length]. lia.
         + (* I/O error: nothing decodable is buffered, so it is the next reference item *)
-          split; [exact Hw1|]. split; [cbn [length]; lia|].
-          inversion Hr as [b0 s bytes its r0 its2 r2 Hs Hd Hde|b0 s bytes t its r0 tr' Hs Hd Hr']; subst;
+          split; [exact Hw1|]. split; [cbn [length]; lia|]. right.
+          inversion Hr as [b0 s bytes its r0 tr2 Hs Hd Hde|b0 s bytes t its r0 tr' Hs Hd Hr']; subst;
             cbn [seg] in Hs; [discriminate|]. injection Hs as <- <-.
           destruct (decodes_nothing _ _ _ Hn Hd) as [-> ->].
           exists tr'. split; [reflexivity|]. unfold expect. now rewrite Ee.
@@ -327,23 +406,42 @@ Section ReadFacts.
     Definition not_pending (r : res A) : bool := match r with Pending => false | _ => true end.
     Definition results (l : list (res A * nat)) : list (res A) := filter not_pending (map fst l).
 
+    (* the non-Pending results start with every reference sequence that fits into the fuel; a reference
+       sequence that reaches Done is all of them *)
     Lemma run_read_spec fuel : forall sc st tr,
       wf st -> expect st sc tr -> (length sc + length tr <= fuel)%nat ->
-      results (run_read fuel 0 sc st) = tr.
+      exists rest, results (run_read fuel 0 sc st) = tr ++ rest /\ (In Done tr -> rest = []).
     Proof.
       induction fuel as [|f IH]; intros sc st tr Hw He Hf.
-      - pose proof (expect_nonempty _ _ _ He). lia.
+      - destruct tr; [|cbn [length] in Hf; lia]. exists []. split; [reflexivity|intros []].
       - cbn [Framed.run_read]. pose proof (next_item_post sc st tr Hw He) as Hp.
         destruct (next_item sc st) as [[r st'] sc']. destruct Hp as (Hw' & Hl & H).
         destruct r.
         + destruct H as [He' Hlt]. unfold results. cbn [map fst filter not_pending].
           apply IH; [exact Hw'|exact He'|lia].
-        + destruct H as (tr' & -> & He'). unfold results. cbn [map fst filter not_pending].
-          f_equal. apply IH; [exact Hw'|exact He'|cbn [length] in Hf; lia].
-        + destruct H as (tr' & -> & He'). unfold results. cbn [map fst filter not_pending].
-          f_equal. apply IH; [exact Hw'|exact He'|cbn [length] in Hf; lia].
-        + destruct H as [-> _]. reflexivity.
+        + unfold results. cbn [map fst filter not_pending].
+          destruct H as [->|(tr' & -> & He')]; [eexists; split; [reflexivity|intros []]|].
+          destruct (IH sc' st' tr' Hw' He' ltac:(cbn [length] in Hf; lia)) as (rest & E & Hd).
+          exists rest. unfold results in E. rewrite E. split; [reflexivity|].
+          intros [Hin|Hin]; [discriminate Hin|auto].
+        + unfold results. cbn [map fst filter not_pending].
+          destruct H as [->|(tr' & -> & He')]; [eexists; split; [reflexivity|intros []]|].
+          destruct (IH sc' st' tr' Hw' He' ltac:(cbn [length] in Hf; lia)) as (rest & E & Hd).
+          exists rest. unfold results in E. rewrite E. split; [reflexivity|].
+          intros [Hin|Hin]; [discriminate Hin|auto].
+        + destruct H as [[->| ->] _]; unfold results; cbn [map fst filter not_pending Framed.run_more].
+          * eexists; split; [reflexivity|intros []].
+          * exists []. split; [reflexivity|reflexivity].
         + destruct H.
+    Qed.
+
+    (* C13_errors, for reference sequences that may be cut short inside the end-of-stream frames *)
+    Theorem read_errors_prefix sc tr fuel :
+      gref [] sc tr -> (length sc + length tr <= fuel)%nat ->
+      exists rest, results (run_read fuel 0 sc rinit) = tr ++ rest /\ (In Done tr -> rest = []).
+    Proof.
+      intros Hr Hf. apply run_read_spec; [apply wf_init; exact (ps_nil law)| |exact Hf].
+      exact Hr.
     Qed.
 
     (* C13_errors *)
@@ -351,8 +449,8 @@ Section ReadFacts.
       ref [] sc tr -> (length sc + length tr <= fuel)%nat ->
       results (run_read fuel 0 sc rinit) = tr.
     Proof.
-      intros Hr Hf. apply run_read_spec; [apply wf_init; exact (ps_nil law)| |exact Hf].
-      exact Hr.
+      intros Hr Hf. destruct (read_errors_prefix sc tr fuel (ref_gref _ _ _ Hr) Hf) as (rest & E & Hd).
+      rewrite E, (Hd (ref_done _ _ _ Hr)). apply app_nil_r.
     Qed.
 
     (* ---- from the position-exact reference to "the frames of the whole stream" ---- *)
@@ -460,6 +558,75 @@ Section ReadFacts.
       unfold frames, ioerrs. rewrite <- filter_filter_frame, <- filter_filter_ioerr.
       unfold results in Hrun. rewrite Hrun. auto.
     Qed.
+    (* ---- the same for end-of-stream frames that never end (or for any initial part of them) ---- *)
+    Lemma eoftr_is_frame b tr : eoftr b tr -> filter is_frame tr = tr /\ filter is_ioerr tr = [].
+    Proof.
+      induction 1 as [b|b r E|b a r tr E H [IH1 IH2]]; cbn [filter is_frame is_ioerr]; [auto|auto|].
+      now rewrite IH1, IH2.
+    Qed.
+
+    Lemma gref_of_stream sc : forall buf its r tr2,
+      decodes decode (buf ++ stream sc) its r -> eoftr r tr2 ->
+      exists tr, gref buf sc tr
+                 /\ filter is_frame tr = map Item its ++ tr2
+                 /\ length (filter is_ioerr tr) = io_errors sc
+                 /\ length tr = (length its + length tr2 + io_errors sc)%nat.
+    Proof.
+      assert (Hbase : forall sc buf its r tr2,
+                 seg sc = ([], TEof) -> stream sc = [] -> io_errors sc = O ->
+                 decodes decode (buf ++ stream sc) its r -> eoftr r tr2 ->
+                 exists tr, gref buf sc tr
+                            /\ filter is_frame tr = map Item its ++ tr2
+                            /\ length (filter is_ioerr tr) = io_errors sc
+                            /\ length tr = (length its + length tr2 + io_errors sc)%nat).
+      { intros sc0 buf its r tr2 Hs Hst Hio Hd He. rewrite Hst in Hd. rewrite Hio.
+        exists (map Item its ++ tr2).
+        split; [eapply gref_eof; eassumption|].
+        destruct (eoftr_is_frame _ _ He) as [F1 F2].
+        rewrite !filter_app, filter_items, filter_items_none, F1, F2 by reflexivity.
+        cbn [app length]. rewrite !app_length, !map_length.
+        repeat split; lia. }
+      induction sc as [|x sc' IH]; intros buf its r tr2 Hd He.
+      - apply Hbase with (r := r); auto.
+      - destruct x as [[|b bs]| | |].
+        + apply Hbase with (r := r); auto.
+        + cbn [stream] in Hd. rewrite app_assoc in Hd.
+          destruct (IH _ _ _ _ Hd He) as (tr & Hr & H1 & H2 & H3).
+          exists tr. split; [apply gref_chunk; exact Hr|]. cbn [io_errors]. auto.
+        + cbn [stream] in Hd. destruct (IH _ _ _ _ Hd He) as (tr & Hr & H1 & H2 & H3).
+          exists tr. split; [eapply gref_seg; [|exact Hr]; reflexivity|]. cbn [io_errors]. auto.
+        + apply Hbase with (r := r); auto.
+        + cbn [stream] in Hd.
+          destruct (decodes_split _ _ _ _ Hd) as (its1 & r1 & its' & Hd1 & Hd2 & ->).
+          destruct (IH _ _ _ _ Hd2 He) as (tr & Hr & H1 & H2 & H3).
+          exists (map Item its1 ++ IoError :: tr). split.
+          * eapply gref_err with (bytes := []); [reflexivity| |exact Hr]. now rewrite app_nil_r.
+          * rewrite !filter_app. cbn [filter is_frame is_ioerr].
+            rewrite filter_items, filter_items_none by reflexivity.
+            rewrite H1. cbn [app length io_errors]. rewrite H2, map_app, <- !app_assoc.
+            rewrite !app_length, !map_length. cbn [length]. rewrite H3.
+            repeat split; lia.
+    Qed.
+
+    (* C13_chunk_independent without the assumption that the end-of-stream frames end: for every script the
+       frames start with those of the whole stream, in order, followed by as many of the codec's end-of-stream
+       frames as the polls reach — in particular the codec IS asked at the 0-byte read even when the buffer is
+       empty, and whatever it answers is delivered *)
+    Theorem read_chunk_independent_prefix sc its r tr2 fuel :
+      decodes decode (stream sc) its r -> eoftr r tr2 ->
+      (length sc + length its + length tr2 + io_errors sc <= fuel)%nat ->
+      exists rest, frames (run_read fuel 0 sc rinit) = map Item its ++ tr2 ++ rest
+                   /\ (In Done tr2 -> rest = []).
+    Proof.
+      intros Hd He Hf.
+      destruct (gref_of_stream sc [] its r tr2 Hd He) as (tr & Hr & H1 & H2 & H3).
+      destruct (read_errors_prefix sc tr fuel Hr ltac:(lia)) as (rest & Hrun & Hdone).
+      exists (filter is_frame rest). unfold frames. rewrite <- filter_filter_frame.
+      unfold results in Hrun. rewrite Hrun, filter_app, H1, <- app_assoc. split; [reflexivity|].
+      intros Hin. rewrite Hdone; [reflexivity|].
+      assert (Hin' : In Done (filter is_frame tr)) by (rewrite H1, in_app_iff; now right).
+      apply filter_In in Hin'. tauto.
+    Qed.
   End WithLaw.
 
   (* ---- no law needed: the debug_assert is unreachable ---- *)
@@ -563,6 +730,8 @@ End ReadFacts.
 Arguments prefix_stable {A}.
 Arguments eof_idem {A}.
 Arguments ref {A}.
+Arguments gref {A}.
+Arguments eoftr {A}.
 Arguments results {A}.
 Arguments frames {A}.
 Arguments ioerrs {A}.
@@ -704,6 +873,46 @@ Qed.
 
 (* the reference is meaningful: the frames of a concatenation of well-formed frames are the payloads *)
 Definition lp_frame (p : list Z) : list Z := Z.of_nat (length p) :: p.
+
+(* ---- the test codec with a trailer: end-of-stream frames from an empty buffer, without end ---- *)
+Lemma decodes_residue {A} (f : list Z -> option A * list Z) b its r :
+  prefix_stable f -> decodes f b its r -> f r = (None, r).
+Proof.
+  intros law. induction 1 as [b r E|b a r l r' E H IH]; [|exact IH].
+  pose proof (ps_none law _ _ E) as ->. exact E.
+Qed.
+
+Lemma lps_eoftr_empty k : eoftr lps_decode_eof [] (repeat (Item LEnd) k).
+Proof.
+  induction k as [|k IH]; cbn [repeat]; [constructor|].
+  eapply eo_item; [reflexivity|exact IH].
+Qed.
+
+Definition lps_tail (r : list Z) : list (res lpitem) := match r with [] => [] | _ => [Item LTrunc] end.
+
+Lemma lps_eoftr r k : lp_decode r = (None, r) -> eoftr lps_decode_eof r (lps_tail r ++ repeat (Item LEnd) k).
+Proof.
+  intros E. destruct r as [|n t]; cbn [lps_tail app]; [apply lps_eoftr_empty|].
+  eapply eo_item; [unfold lps_decode_eof; rewrite E; reflexivity|apply lps_eoftr_empty].
+Qed.
+
+(* for every script and every k: the frames of the whole stream, `Truncated` if the stream stops inside a frame,
+   then the end marker k times (and so on: never None) — the codec is consulted at the 0-byte read although the
+   buffer is empty *)
+Theorem lps_chunk_independent sc k :
+  exists its r,
+    decodes lp_decode (stream sc) its r /\
+    forall fuel, (length sc + length its + 1 + k + io_errors sc <= fuel)%nat ->
+      exists rest, frames (run_read lp_decode lps_decode_eof fuel 0 sc rinit)
+                   = map Item its ++ lps_tail r ++ repeat (Item LEnd) k ++ rest.
+Proof.
+  destruct (decodes_total _ lp_consuming (stream sc)) as (its & r & Hd).
+  exists its, r. split; [exact Hd|]. intros fuel Hf.
+  pose proof (lps_eoftr r k (decodes_residue _ _ _ _ lp_prefix_stable Hd)) as He.
+  destruct (read_chunk_independent_prefix _ _ lps_decode_eof lp_prefix_stable sc its r _ fuel Hd He) as (rest & E & _).
+  - rewrite app_length, repeat_length. destruct r; cbn [lps_tail length]; lia.
+  - exists rest. rewrite E, <- !app_assoc. reflexivity.
+Qed.
 
 Lemma lp_decodes_frames ps :
   Forall (fun p => (length p <= 254)%nat) ps ->
